@@ -103,11 +103,15 @@ impl<F: Function> RenderHandle<F> {
         // Free self.next if it doesn't match our new set of choices
         let mut trace_storage = if let Some(neighbor) = &self.next {
             if &neighbor.0 != trace {
+                #[cfg(fidget_verif)]
+                crate::verif::probe("rh_cache_evict");
                 let (trace, neighbor) = self.next.take().unwrap();
                 neighbor.recycle(shape_storage, tape_storage);
                 Some(trace)
                 // continue with simplification
             } else {
+                #[cfg(fidget_verif)]
+                crate::verif::probe("rh_cache_hit");
                 None
             }
         } else {
@@ -125,6 +129,8 @@ impl<F: Function> RenderHandle<F> {
             if next.size() >= self.shape.size() {
                 // Optimization: if the simplified shape isn't any shorter, then
                 // don't use it (this saves time spent generating tapes)
+                #[cfg(fidget_verif)]
+                crate::verif::probe("rh_not_shorter");
                 shape_storage.extend(next.recycle());
                 self
             } else {
